@@ -507,7 +507,11 @@ do_dial(Sock *s, int slot, int mode)
 				// a header the websocket handshake sets itself, given again by the application with the value it
 				// has anyway (the handshake still works), and one of its own
 				(void) nng_dialer_set_string(d, NNG_OPT_WS_HEADER "Connection", "Upgrade");
-				(void) nng_dialer_set_string(d, NNG_OPT_WS_HEADER "X-Sim-App", "c03");
+				// ... and one of its own, given more than once with values of different lengths
+				static const char *const HV[] = { "c03", "a-much-longer-value-for-the-same-header-0123456789", "", "mid-length-value" };
+				int hn = 1 + (int) W(0, 2);
+				for (int hi = 0; hi < hn; hi++)
+					(void) nng_dialer_set_string(d, NNG_OPT_WS_HEADER "X-Sim-App", HV[W(0, 3)]);
 				sim_probe("c03_ws_static_header_given");
 			}
 			rv = nng_dialer_start(d, NNG_FLAG_NONBLOCK);
